@@ -4,9 +4,11 @@ d=$1; shift
 props="$@"; [ -z "$props" ] && props="C01 C02 C03 C04 C05 C06 C07 C08 C09 C10 C11 C12 C13 C14 C15 C16 C17 C18 C19 C20"
 git -C /repo diff --quiet || { echo "/repo not clean"; exit 2; }
 git -C /repo apply "$d/patch.diff" || { echo "$d APPLY-FAIL"; exit 2; }
-for p in $props; do
+one() { p=$1; d=$2
   /verif/check $p quick > /tmp/tryref.$p.out 2>&1; rc=$?
   if [ $rc -ne 0 ]; then echo "== $d $p FALSE-ALARM exit=$rc"; grep -E "^[^ ]+:[0-9]+: \[|checker failure" /tmp/tryref.$p.out | cut -c1-330 | head -6; fi
-done
+}
+export -f one
+printf "%s\n" $props | xargs -P 6 -I{} bash -c "one {} $d"
 echo "== $d done"
 git -C /repo checkout -- .
